@@ -539,6 +539,33 @@ impl<'a> Gen<'a> {
                     let id = self.meta_recv(depth + 1, false);
                     Ty::BoxRecv(id)
                 }
+                2 if self.rng.coin() => {
+                    // a newtype around a struct receiver: it hands everything on, the item list too
+                    let outer = self.recvs.len();
+                    self.recvs.push(Recv {
+                        id: outer,
+                        tr: Trait::Meta,
+                        rename_all: None,
+                        cdefault: Def::None,
+                        from_ident: false,
+                        post: Post::None,
+                        allow_unknown: false,
+                        from_word: false,
+                        from_none: false,
+                        attr_names: vec![],
+                        forward: Fwd::None,
+                        attrs_field: None,
+                        supports: None,
+                        magic: vec![],
+                        shape: Shape::Unit,
+                        generics: String::new(),
+                        inner_with: With::None,
+                        inner_post: Post::None,
+                    });
+                    let inner = self.meta_recv(depth + 1, false);
+                    self.recvs[outer].shape = Shape::Newtype(Ty::Recv(inner));
+                    Ty::Recv(outer)
+                }
                 _ => {
                     let id = self.meta_recv(depth + 1, false);
                     Ty::Recv(id)
